@@ -197,7 +197,9 @@ func init() {
 		Rule: "full product of Destination (9 values incl. near-misses) x Issuer (7) x Status (7) x IssueInstant (8 positions relative to the process clock, >= 5 s from the freshness boundary) with a valid signature, x {POST form, redirect (deflate)} x tolerance settings x trust configuration {metadata, fingerprint, pinned}; " +
 			"16 signature treatments (absent, untrusted key, encryption-use key, each field edited after signing, relocated, wrapped in an unsigned response, duplicated, attacker-signed with the trusted certificate appended/first, truncated value, foreign-namespace look-alike) on otherwise valid responses and with one deviating field; dispatch through ValidateLogoutResponseRequest by GET query and POST body. " +
 			"Oracle: nil error iff trusted signature, Destination = SLO URL, fresh, Issuer = IdP, Status Success. non-trivial = all but the single fully valid response",
-		Bounds:      func(tier string) string { return "full field product for valid signatures; signature treatments x (all-correct + every single-field deviation)" },
+		Bounds: func(tier string) string {
+			return "full field product for valid signatures; signature treatments x (all-correct + every single-field deviation)"
+		},
 		Assumptions: []string{"freshness is judged by the process clock (time.Now) on this path: instants are built immediately before each call and stay 5 s from the boundary, so the exact boundary is not decided", "redirect-binding detached query signatures are not implemented by the library and not part of the statement"},
 		Run:         runC18,
 		CapQuick:    6 * time.Minute,
